@@ -26,6 +26,7 @@ const imp = "verif/harness/c07/corpus"
 
 var jsonNames = []string{"id", "name", "a", "b", "items", "next", "meta", "when", "tags", "value", "count", "kind"}
 var validateTags = []string{
+	"excludes=admin", "startswith=ab", "contains=x,required", "alpha", "numeric", "ne=5", "ip",
 	"", "", "", "required", "required", "required,email", "min=1,max=10", "gte=0,lt=100", "oneof=a b c",
 	"len=5", "minlen=2,maxlen=8", "uuid", "url", "alphanum", "omitempty,min=3", "required,oneof=x y",
 	"gt=0", "lte=5", "min=abc", "required,uuid", "required,min=2", "email", "max=7",
@@ -185,6 +186,14 @@ func (g *gen) tag(req bool, used map[string]bool) string {
 		parts = append(parts, fmt.Sprintf(`%s:"%s"`, loc, name))
 		if r.Chance(1, 4) {
 			parts = append(parts, fmt.Sprintf(`default:"%s"`, hx.Pick(r, []string{"5", "0", "42", "abc", "true", "false", "x", "007", "1"})))
+		}
+		if r.Chance(1, 6) {
+			st := map[string][]string{"path": {"simple", "label", "matrix"}, "query": {"form", "deepObject", "pipeDelimited", "spaceDelimited"},
+				"header": {"simple"}, "cookie": {"form"}}[loc]
+			parts = append(parts, fmt.Sprintf(`style:"%s"`, hx.Pick(r, st)))
+		}
+		if r.Chance(1, 8) {
+			parts = append(parts, fmt.Sprintf(`explode:"%s"`, hx.Pick(r, []string{"true", "false"})))
 		}
 		if r.Chance(1, 6) {
 			parts = append(parts, fmt.Sprintf(`json:"%s"`, hx.Pick(r, jsonNames)))
@@ -379,6 +388,54 @@ type Deep struct {
 	H [4]byte               ` + "`json:\"h\"`" + `
 }
 
+// types with a fixed JSON form: plain, and behind pointers / with constraints
+type WellKnown struct {
+	IP  net.IP          ` + "`json:\"ip\"`" + `
+	Raw json.RawMessage ` + "`json:\"raw\"`" + `
+	Num json.Number     ` + "`json:\"num\"`" + `
+	Big big.Int         ` + "`json:\"big\"`" + `
+	Dur time.Duration   ` + "`json:\"dur\"`" + `
+	U   [16]byte        ` + "`json:\"u\"`" + `
+	A   netip.Addr      ` + "`json:\"a\"`" + `
+}
+type WellKnownPtr struct {
+	IP  *net.IP          ` + "`json:\"ip,omitempty\" validate:\"required,min=4\" query:\"ip\"`" + `
+	Raw *json.RawMessage ` + "`json:\"raw\" validate:\"len=5\"`" + `
+	Num *json.Number     ` + "`json:\"num\" validate:\"oneof=1 2\" header:\"X-Num\" default:\"1\"`" + `
+	Big *big.Int         ` + "`json:\"big\" validate:\"gt=0\"`" + `
+	Dur *time.Duration   ` + "`json:\"dur\" validate:\"max=9\" cookie:\"dur\"`" + `
+	A   *netip.Addr      ` + "`json:\"a\" validate:\"uuid\"`" + `
+}
+
+// a wrapper whose only field is an embedded struct that refers back to the wrapper
+type Cat struct {
+	Children []CatNode ` + "`json:\"children\"`" + `
+	Name     string    ` + "`json:\"name\" validate:\"required\"`" + `
+}
+type CatNode struct {
+	Cat
+}
+
+// validator rules the generator does not interpret
+type Rules struct {
+	A string ` + "`json:\"a\" validate:\"excludes=admin\"`" + `
+	B string ` + "`json:\"b\" validate:\"startswith=ab,endswith=z\"`" + `
+	C string ` + "`json:\"c\" validate:\"required,contains=x\"`" + `
+	D string ` + "`json:\"d\" validate:\"alpha,numeric,ip,datetime=2006-01-02,ne=5\"`" + `
+	E *int   ` + "`json:\"e,omitempty\" validate:\"omitempty,gte=1,lte=9\"`" + `
+}
+
+// object-typed parameters in every location, style / explode tags
+type ObjParams struct {
+	F  map[string]string ` + "`query:\"f\" style:\"deepObject\" explode:\"true\"`" + `
+	G  Cat               ` + "`query:\"g\"`" + `
+	H  map[string]int    ` + "`header:\"X-H\"`" + `
+	C  D1                ` + "`cookie:\"c\"`" + `
+	ID map[string]string ` + "`path:\"id\" style:\"matrix\"`" + `
+	L  []string          ` + "`query:\"l\" style:\"pipeDelimited\" explode:\"false\"`" + `
+	M  []int             ` + "`header:\"X-M\" style:\"simple\" explode:\"yes\"`" + `
+}
+
 // generic types
 type Page[T any] struct {
 	Items []T      ` + "`json:\"items\" validate:\"required\"`" + `
@@ -396,9 +453,13 @@ type Box[T any] struct {
 }
 `
 
-var hand = []string{"SelfEmb", "EmbA", "EmbB", "EmbNon", "D1", "D2", "D3", "EmbGen", "EmbHidden", "EmbIface", "Deep"}
+var hand = []string{"SelfEmb", "EmbA", "EmbB", "EmbNon", "D1", "D2", "D3", "EmbGen", "EmbHidden", "EmbIface", "Deep",
+	"WellKnown", "WellKnownPtr", "Cat", "CatNode", "Rules", "ObjParams"}
 
 func genPkg(r *hx.Rand, p, other *pkgT, nStructs, nReqs int, fixed []string) {
+	for _, i := range []string{"net", "encoding/json", "math/big", "net/netip", "time"} {
+		p.imports[i] = true // used by the hand-written types of `common`
+	}
 	p.structs = append(p.structs, hand...) // declared in `common`
 	p.all = append(p.all, fixed...)
 	for i := 0; i < nStructs; i++ {
